@@ -577,9 +577,9 @@ def decompress_destripe_cbin(
             else:
                 chunk = spatial_fcn(chunk)  # apply the k-filter / CAR
 
-            # add back sync trace and save
+            # mute the saturated samples, then add back the sync trace (which is copied as is) and save
+            chunk = chunk * mute_saturation[np.newaxis, :]
             chunk = np.r_[chunk, _sr[first_s:last_s, ncv:].T].T
-            chunk = chunk * mute_saturation[:, np.newaxis]
 
             # Compute rms - we get it before applying the whitening
             if compute_rms:
